@@ -119,6 +119,14 @@ def check_property(prop, tier="quick", seed=0, repo=None, spec=None):
     quals = [q for q, c in ctx.contracts.items() if prop in c.props and not c.trusted and "#" not in q]
     results = verify_many(quals, repo, second_solver=(tier == "thorough")) if quals else []
     lem = run_lemmas(ctx, prop)
+    if spec.get("tags"):
+        from pyvc.tags import Analysis
+        try:
+            for o in Analysis(ctx.sources, ctx.consts).run():
+                lem.append({"name": o["name"], "kind": "tag", "result": "unsat" if o["ok"] is True else "sat" if o["ok"] is False else "unknown",
+                            "time_s": 0.0, "backend": "tag-lattice", "text": f"{o['function']}: the value is int-tagged ({o['text']})", "line": o["line"]})
+        except Exception as e:
+            lem.append({"name": "tag-analysis", "kind": "tag", "result": "error", "text": repr(e), "time_s": 0, "backend": "-"})
     bounded = run_bounded(prop, tier, seed, repo) if spec.get("bounded", True) else None
     known = [k for k in load_known() if k.get("property") == prop and k.get("status", "open") == "open"]
 
